@@ -168,6 +168,7 @@ func TestC15(t *testing.T) {
 	if ev.Thorough() {
 		thoroughExtremes()
 	}
+	bigImages()
 	ev.RapidChecks(ev.Pick(6000, 300000))
 	ev.RapidSeed(15)
 	rapid.Check(t, func(rt *rapid.T) {
@@ -299,4 +300,101 @@ func parChoices(rows int) []int {
 		}
 	}
 	return c
+}
+
+// bigImages: images of 2^16 .. 2^20 pixels with many rows and parallelism 1..32 (or equal to the row count), for
+// the source types that have hand-written conversion loops.  Small images cannot expose size thresholds or
+// row-partition arithmetic that only goes wrong for particular (height, parallelism) pairs.
+func bigImages() {
+	x := ev.Seed()*0x9E3779B97F4A7C15 + 15
+	next := func(n int) int {
+		x ^= x << 13
+		x ^= x >> 7
+		x ^= x << 17
+		return int(x>>33) % n
+	}
+	types := []string{"RGBA64", "NRGBA", "RGBA", "YCbCr", "YCbCr", "NRGBA64", "Gray16"}
+	helpers := []string{"NRGBA", "RGBA", "RGBA64"}
+	n := ev.Pick(160, 4000)
+	bad := map[string]bool{}
+	for i := 0; i < n; i++ {
+		total := []int{1 << 16, 1 << 18, 1<<18 + 1, 300000, 1 << 20}[next(5)]
+		if !ev.Thorough() && total > 1<<18+1 && i%8 != 0 {
+			total = 1 << 18
+		}
+		h := 64 + next(1985)
+		if i%5 == 0 {
+			h = []int{480, 512, 1024, 1080, 1200, 1920, 2048}[next(7)]
+		}
+		w := (total + h - 1) / h
+		par := 1 + next(32)
+		switch i % 9 {
+		case 0:
+			par = h
+		case 1:
+			par = h + 1
+		case 2:
+			par = []int{11, 13, 22, 26, 49}[next(5)]
+		}
+		ox, oy := next(7)-3, next(7)-3
+		typ := types[next(len(types))]
+		if typ == "YCbCr" {
+			ox, oy = next(4), next(4)
+		}
+		c := Case{Src: img.Spec{Type: typ, Ratio: next(6), Rect: [4]int{ox, oy, ox + w, oy + h}, Parent: [4]int{ox, oy, ox + w, oy + h}, Fill: "prng", Seed: uint64(i) + ev.Seed()}, Helper: helpers[next(3)], Par: par}
+		ev.Eval(1)
+		k, wh, _ := check(c)
+		ev.NT(ev.Hash("big", c))
+		if k != "" && !bad[k] {
+			bad[k] = true
+			ev.Violation("convert", c.Helper+"/"+k, wh, c)
+		}
+	}
+	ev.Class("big-images", int64(n))
+	// (height, parallelism) sweeps for every hand-written loop: row partitioning must cover every row exactly
+	// once for every pair.  Narrow images make the full sweep cheap; the same pairs are then sampled on images
+	// of 2^18 pixels (2^20 in thorough) in case a size threshold switches the partitioning scheme.
+	combos := [][2]string{{"RGBA64", "RGBA"}, {"NRGBA", "RGBA64"}, {"RGBA", "RGBA64"}, {"YCbCr", "RGBA64"}, {"YCbCr", "NRGBA"}}
+	var pairs int64
+	for _, cb := range combos {
+		for h := 1; h <= ev.Pick(160, 600); h++ {
+			for p := 1; p <= ev.Pick(40, 130); p++ {
+				if !ev.Thorough() && (h*7+p*3)%3 != 0 && p > 8 && h > 24 {
+					continue // quick: every pair with p <= 8 or h <= 24, a third of the rest
+				}
+				c := Case{Src: img.Spec{Type: cb[0], Ratio: (h + p) % 6, Rect: [4]int{0, 0, 2, h}, Parent: [4]int{0, 0, 2, h}, Fill: "ramp", Seed: 1}, Helper: cb[1], Par: p}
+				pairs++
+				k, wh, _ := check(c)
+				if k != "" && !bad[k] {
+					bad[k] = true
+					ev.Violation("convert", c.Helper+"/"+k, wh, c)
+				}
+			}
+		}
+		nbig := ev.Pick(220, 3000)
+		for i := 0; i < nbig; i++ {
+			total := 1 << 18
+			if ev.Thorough() && i%4 == 0 {
+				total = 1 << 20
+			}
+			h := 256 + next(1800)
+			if i%4 == 1 {
+				h = []int{480, 512, 600, 768, 1024, 1080, 1200, 1920, 2048}[next(9)]
+			}
+			par := 1 + next(32)
+			if i%16 == 3 {
+				par = 33 + next(96)
+			}
+			c := Case{Src: img.Spec{Type: cb[0], Ratio: next(6), Rect: [4]int{0, 0, (total + h - 1) / h, h}, Parent: [4]int{0, 0, (total + h - 1) / h, h}, Fill: "ramp", Seed: 1}, Helper: cb[1], Par: par}
+			pairs++
+			k, wh, _ := check(c)
+			if k != "" && !bad[k] {
+				bad[k] = true
+				ev.Violation("convert", c.Helper+"/"+k, wh, c)
+			}
+		}
+	}
+	ev.Eval(pairs)
+	ev.NTAdd(pairs)
+	ev.Class("height-parallelism-pairs", pairs)
 }
